@@ -1130,26 +1130,50 @@ theorem C17.psBin_scalar {K : Type} (op : K → K → K) (c : K) (t : PTree K) :
 example : (psBin (· * ·) (.node [.leaf [1, 2], .node [.leaf [3]]]) (.scalar (2 : Int))).map PTree.flatten
     = some [2, 4, 6] := by decide
 
-/-- FRAME of the `out=` branch (`for x, out_x in zip(self.elem, out): x.ufuncs.f(out=out_x)`):
-whatever the operand and `out` trees are (aliased, of different structure, `zip` truncating),
-if the call succeeds then no buffer is created or resized and every buffer that is NOT a leaf
-of `out` holds what it held before: the wrapper writes only into the outs, operands that are
-not themselves outs are untouched. -/
+/-- FRAME of the `out=` branch (`for x, out_x in zip(self.elem, out): x.ufuncs.f(out=out_x)`
+after the part-count check): whatever the operand and `out` trees are (aliased or not), if the
+call succeeds then no buffer is created or resized and every buffer that is NOT a leaf of `out`
+holds what it held before: the wrapper writes only into the outs, operands that are not
+themselves outs are untouched. -/
 theorem C17.psMapInto_frame {K : Type} (f : K → K) (x o : BTree) (h h' : Heap K)
     (e : psMapInto f h x o = some h') :
     h'.length = h.length ∧ ∀ k, k ∉ o.bufs → h'[k]? = h[k]? :=
   psMapInto_frame' f x o h h' e
 
-/-- CONTENTS of `out`, disjoint case: `out` of the same structure as the operand, its buffers
-pairwise distinct and none of them a buffer of the operand. If the call succeeds, then
-afterwards `out` holds exactly `psMap f` of what the operand held before (by
-`C17.psMap_flatten`: NumPy's `f` of the operand's values) and the operand still holds what it
-held. -/
+/-- REJECTION (the repair of C17-F14, /repo 2fbe3b2; by construction of the model, which puts
+the test where the code has it): an `out` whose number of parts differs from the operand's is
+refused before the loop — there is no resulting heap, nothing was written. -/
+theorem C17.psMapInto_rejects_part_count {K : Type} (f : K → K) (ps qs : List BTree)
+    (h : Heap K) (hl : ps.length ≠ qs.length) :
+    psMapInto f h (.node ps) (.node qs) = none := by
+  simp [psMapInto, hl]
+
+example : psMapInto (fun a : Int => -a) [[1], [2], [7], [7], [7]]
+    (.node [.buf 0, .buf 1]) (.node [.buf 2, .buf 3, .buf 4]) = none := by decide
+
+/-- … and, because the parts' own wrappers make the same test, a call can only SUCCEED if `out`
+has the structure of the operand at every level (same nesting, same numbers of parts): no
+result is ever dropped and no part of `out` is left unwritten — for all trees and heaps. -/
+theorem C17.psMapInto_success_same_structure {K : Type} (f : K → K) (x o : BTree)
+    (h h' : Heap K) (e : psMapInto f h x o = some h') : x.sameTree o = true :=
+  psMapInto_sameTree f x o h h' e
+
+example : psMapInto (fun a : Int => -a) [[1], [2], [7], [7]]
+    (.node [.buf 0, .node [.buf 1]]) (.node [.buf 2, .node [.buf 3]]) = some [[1], [2], [-1], [-2]] ∧
+    (BTree.node [.buf 0, .node [.buf 1]]).sameTree (.node [.buf 2, .node [.buf 3]]) = true := by
+  decide
+
+/-- CONTENTS of `out`, disjoint case: the buffers of `out` pairwise distinct and none of them a
+buffer of the operand. If the call succeeds (which by `C17.psMapInto_success_same_structure`
+needs `out` of the operand's structure), then afterwards `out` holds exactly `psMap f` of what
+the operand held before (by `C17.psMap_flatten`: NumPy's `f` of the operand's values) and the
+operand still holds what it held. -/
 theorem C17.psMapInto_out_contents {K : Type} (f : K → K) (x o : BTree) (h h' : Heap K)
-    (st : x.sameTree o = true) (nd : o.bufs.Nodup) (dj : ∀ k ∈ o.bufs, k ∉ x.bufs)
+    (nd : o.bufs.Nodup) (dj : ∀ k ∈ o.bufs, k ∉ x.bufs)
     (e : psMapInto f h x o = some h') :
     ∃ t, x.read h = some t ∧ o.read h' = some (psMap f t) ∧ x.read h' = some t := by
-  obtain ⟨t, h1, h2⟩ := psMapInto_disjoint' f x o h h' st nd dj e
+  obtain ⟨t, h1, h2⟩ :=
+    psMapInto_disjoint' f x o h h' (psMapInto_sameTree f x o h h' e) nd dj e
   refine ⟨t, h1, h2, ?_⟩
   rw [← h1]
   exact read_congr x h h' (fun k hk =>
@@ -1169,14 +1193,18 @@ theorem C17.psMapInto_inplace_contents {K : Type} (f : K → K) (x : BTree) (h h
 example : psMapInto (fun a : Int => a * a) [[1, 2], [3]] (.node [.buf 0, .node [.buf 1]])
       (.node [.buf 0, .node [.buf 1]]) = some [[1, 4], [9]] := by decide
 
-/-- DEFECT C17-F14 on the model (the code as it exists): an `out` with a different number of
-parts is NOT rejected — `zip` stops at the shorter list. With more parts in `out` the call
-succeeds and returns an `out` whose trailing parts were never written; with fewer parts the
-results of the trailing operand parts are silently dropped. NumPy raises `ValueError`
-(operands could not be broadcast) for the underlying arrays in both cases. -/
+/-- SENSITIVITY (about the OLD variant `psMapIntoOld`, the wrapper before /repo 2fbe3b2, defect
+C17-F14 — NOT the code any more): without the part-count test `zip` stops at the shorter list.
+With more parts in `out` the old call succeeded and returned an `out` whose trailing parts were
+never written; with fewer parts the results of the trailing operand parts were silently
+dropped. The model of the repaired code (`psMapInto`) refuses both inputs. -/
 theorem C17.psMapInto_part_count_unchecked_fails :
-    (∃ h', psMapInto (fun a : Int => -a) [[1], [2], [7], [7], [7]]
+    (∃ h', psMapIntoOld (fun a : Int => -a) [[1], [2], [7], [7], [7]]
         (.node [.buf 0, .buf 1]) (.node [.buf 2, .buf 3, .buf 4]) = some h' ∧ h'[4]? = some [7]) ∧
-    (∃ h', psMapInto (fun a : Int => -a) [[1], [2], [7]]
-        (.node [.buf 0, .buf 1]) (.node [.buf 2]) = some h' ∧ h' = [[1], [2], [-1]]) :=
-  ⟨⟨_, rfl, by decide⟩, ⟨_, rfl, by decide⟩⟩
+    (∃ h', psMapIntoOld (fun a : Int => -a) [[1], [2], [7]]
+        (.node [.buf 0, .buf 1]) (.node [.buf 2]) = some h' ∧ h' = [[1], [2], [-1]]) ∧
+    psMapInto (fun a : Int => -a) [[1], [2], [7], [7], [7]]
+        (.node [.buf 0, .buf 1]) (.node [.buf 2, .buf 3, .buf 4]) = none ∧
+    psMapInto (fun a : Int => -a) [[1], [2], [7]]
+        (.node [.buf 0, .buf 1]) (.node [.buf 2]) = none :=
+  ⟨⟨_, rfl, by decide⟩, ⟨_, rfl, by decide⟩, by decide, by decide⟩
